@@ -1,0 +1,39 @@
+//go:build verif
+
+package ls
+
+// Contracts for the deductive verifier under /verif (comment-only; build tag verif).
+
+// ---- position mapping (C23): LSP positions are (line, UTF-16 code unit) pairs ----
+
+// lineOff(s, from, line): the offset at which the line-th line after offset from starts
+// (each line ends with '\n'); -1 when the text has fewer lines.
+//@ spec func lineOff(s string, from int, line int) int decreases line = line <= 0 ? from : (pure0("strings.IndexByte", s[from:], 10) == -1 ? -1 : lineOff(s, from + pure0("strings.IndexByte", s[from:], 10) + 1, line - 1))
+
+// colOff(s, from, col): the offset reached from offset from after col UTF-16 code units, never
+// crossing a newline or the end of the text; a rune above U+FFFF counts as two units and the
+// position between them does not exist (-1).
+//@ spec func colOff(s string, from int, col int) int decreases col = col <= 0 ? from : ((pure1("utf8.DecodeRuneInString", s[from:]) == 0 || pure0("utf8.DecodeRuneInString", s[from:]) == 10) ? -1 : (pure0("utf8.DecodeRuneInString", s[from:]) > 65535 ? (col == 1 ? -1 : colOff(s, from + pure1("utf8.DecodeRuneInString", s[from:]), col - 2)) : colOff(s, from + pure1("utf8.DecodeRuneInString", s[from:]), col - 1)))
+
+//@ func resolvePosition
+//@   ensures result1 == nil ==> 0 <= result0 && result0 <= len(content)
+//@   ensures result1 == nil ==> lineOff(content, 0, pos.Line) >= 0 && result0 == colOff(content, lineOff(content, 0, pos.Line), pos.Character)
+//@   ensures result1 != nil ==> lineOff(content, 0, pos.Line) == -1 || colOff(content, lineOff(content, 0, pos.Line), pos.Character) == -1
+//@   loop 1:
+//@     invariant 0 <= ret && ret <= len(content) && 0 <= line && line <= pos.Line
+//@     invariant lineOff(content, ret, line) == lineOff(content, 0, pos.Line)
+//@     decreases line
+//@   loop 2:
+//@     invariant 0 <= ret && ret <= len(content) && 0 <= col && col <= pos.Character
+//@     invariant colOff(content, ret, col) == colOff(content, lineOff(content, 0, pos.Line), pos.Character)
+//@     decreases col
+
+// utf16Len: one unit per rune, two for runes above U+FFFF; never more units than bytes.
+//@ spec func u16(s string, from int) int decreases len(s) - from = from >= len(s) ? 0 : (pure0("utf8.DecodeRuneInString", s[from:]) > 65535 ? 2 : 1) + u16(s, from + pure1("utf8.DecodeRuneInString", s[from:]))
+
+//@ func utf16Len
+//@   ensures result == u16(s, 0)
+//@   ensures 0 <= result && result <= len(s)
+//@   loop 1:
+//@     invariant 0 <= @i && @i <= len(s) && 0 <= n && n <= @i
+//@     invariant n + u16(s, @i) == u16(s, 0)
